@@ -455,25 +455,25 @@ def _arm_name(b, cfg, T, bb):
 
 
 def _builder_masks(P):
-    for f in P.bodies:
-        if f.endswith("radv::RaAdvService::build_announcement_pure"):
-            b = P.bodies[f]
+    """when the encoder writes the prefix as given, every producer of a prefix must have cleared the host bits: either every
+    AdvPrefix handed to the encoder, or every radv::config::Prefix the advertisement is built from (the loader's AND the one
+    synthesised from an interface address) — one masked producer is not enough"""
+    def masked(v):
+        return any(y[0] == "call" and str(y[1]).rsplit("::", 1)[-1] in ("network",) for y in subterms(v)) or any(
+            y[0] == "bin" and y[1] == "BitAnd" for y in subterms(v))
+
+    def production(b):
+        return "::test" not in b.id and "/test" not in b.file and not b.file.endswith("test.rs")
+    for adt, fld in (("radv::icmppkt::AdvPrefix", "prefix"), ("radv::config::Prefix", "addr")):
+        sites = []
+        for b, bb, idx, s in find_aggs(P, adt):
+            if not production(b) or not s["rv"].get("adt", "").endswith(adt):
+                continue
             T = terms(P, b)
-            for _, bb, idx, s in find_aggs(P, "radv::icmppkt::AdvPrefix", [b]):
-                t = norm(T.rvalue(s["rv"], bb, idx))
-                pv = dict(t[3])["prefix"]
-                if any(y[0] == "call" and str(y[1]).rsplit("::", 1)[-1] in ("network",) for y in subterms(pv)) or any(y[0] == "bin" and y[1] == "BitAnd" for y in subterms(pv)):
-                    return True
-    # or the loader stores the network address
-    for f in P.bodies:
-        if f.endswith("radv::config::parse_prefix"):
-            b = P.bodies[f]
-            T = terms(P, b)
-            for _, bb, idx, s in find_aggs(P, "radv::config::Prefix", [b]):
-                t = norm(T.rvalue(s["rv"], bb, idx))
-                pv = dict(t[3])["addr"]
-                if any(y[0] == "call" and str(y[1]).rsplit("::", 1)[-1] in ("network",) for y in subterms(pv)):
-                    return True
+            t = norm(T.rvalue(s["rv"], bb, idx))
+            sites.append(masked(dict(t[3])[fld]))
+        if sites and all(sites):
+            return True
     return False
 
 
